@@ -556,6 +556,25 @@ func realiseBase(v J, r *Repr, path, h string) (any, error) {
 				return sv.Addr().Interface(), nil
 			}
 			return sv.Interface(), nil
+		case "mixedkeys": // keys of several kinds, named by a prefix: "i:1" the integer 1, "s:1" the text "1", "b:true" the boolean
+			t := map[any]any{}
+			for _, k := range keys {
+				switch {
+				case strings.HasPrefix(k, "i:"):
+					n, err := strconv.Atoi(k[2:])
+					if err != nil {
+						return nil, fmt.Errorf("repr mixedkeys: %q", k)
+					}
+					t[n] = out[k]
+				case strings.HasPrefix(k, "b:"):
+					t[k[2:] == "true"] = out[k]
+				case strings.HasPrefix(k, "s:"):
+					t[k[2:]] = out[k]
+				default:
+					t[k] = out[k]
+				}
+			}
+			return t, nil
 		case "ptrkeys", "dropkeys": // keys held indirectly: pointers to the strings / Drops (on a pointer type) yielding them
 			if h == "ptrkeys" {
 				t := map[*string]any{}
